@@ -46,11 +46,8 @@ theorem setRecommendedState_rearm (p p1 : Port) (r : Recommended) (s s1 : InstSt
         rw [← hv.1, ← hv.2.2]; exact portMove_rearm p r s.dflt st pd' hm
   cases r with
   | m1 dd | m2 dd =>
-    simp only at h2
-    split at h2
-    · cases h2
-    · simp only [Except.ok.injEq, Prod.mk.injEq] at h2
-      rw [← h2.1, ← h2.2.2.2]; exact hport
+    simp only [Except.ok.injEq, Prod.mk.injEq] at h2
+    rw [← h2.1, ← h2.2.2.2]; exact hport
   | m3 aa | p1 aa | p2 aa =>
     simp only [Except.ok.injEq, Prod.mk.injEq] at h2
     rw [← h2.1, ← h2.2.2.2]; exact hport
